@@ -11,7 +11,7 @@ HOOKS = {
 }
 
 ENGINES = [
-    {'name': 'E2-mirsym', 'path': 'mirsym/', 'serves_properties': ['C05', 'C10', 'C15', 'C18'],
+    {'name': 'E2-mirsym', 'path': 'mirsym/', 'serves_properties': ['C04', 'C05', 'C10', 'C15', 'C18'],
      'kind_free_text': 'MIR symbolic executor (Python + z3): rustc --emit=mir of /repo working tree on every run, path enumeration with symbolic leaves, listed library models, native replay of counterexamples'},
 ]
 
@@ -24,6 +24,8 @@ CHECKS = {
             'text': 'Real MIR of all eleven math filters (evaluate + derive-generated argument evaluation + as_scalar/to_integer/to_float + Value::scalar) executed for every pair of operand kinds with all 2^64 values each: integer results exact when they fit (else error/double), IEEE results on the float path, rounding direction for |x|<2^63, no panic.'},
     'C10': {'engine': 'E2-mirsym', 'technique': T_MIR + '; the sink failure point is a symbolic variable', 'note': N_MIR + '; children are abstract renderables that return Err when they see the sink fail (the contract each real renderable is itself checked against)',
             'text': 'Real MIR of every writing render_to (Text, RawT, FilterChain, core Template, Conditional, Case, Increment, Decrement, Cycle, Capture, IfChanged, For, TableRow) executed with a sink whose K-th write fails for a solver-chosen K: Err returned, no later write, accepted log is a prefix of a fault-free run with the same choices, no panic.'},
+    'C04': {'engine': 'E2-mirsym', 'technique': T_MIR, 'note': N_MIR + '; find/try_find uninterpreted (result names the map that answered); tag bodies abstract',
+            'text': 'Real MIR of RuntimeBuilder::build and liquid::Template::render_to (layer order, fresh layers, caller data by reference), of get/try_get/set_global/set_index on that concrete four-layer stack plus 0..2 scopes for every combination of layers defining a name (innermost wins, assignments land in the right layer, caller data untouched), and of Assign/Capture/Increment/Decrement::render_to against an abstract runtime.'},
 }
 
 NOT_BUILT = 'not claimed yet: obligations for this property are not built in this revision (see DESIGN.md §4)'
@@ -31,5 +33,5 @@ NOT_APPLICABLE = {
     'C09': 'quantifies over histories of whole parse+render calls; needs the pest parser and HashMap-backed registers inside the solver (measured out of reach) or a frame condition that is a typing fact, not a solver query (DESIGN.md §5)',
     'C20': 'quantifies over thread schedules; Kani does not support concurrency and the MIR executor has no interleaving semantics (DESIGN.md §5)',
 }
-for _p in ['C01', 'C02', 'C03', 'C04', 'C06', 'C07', 'C08', 'C11', 'C12', 'C13', 'C14', 'C16', 'C17', 'C19']:
+for _p in ['C01', 'C02', 'C03', 'C06', 'C07', 'C08', 'C11', 'C12', 'C13', 'C14', 'C16', 'C17', 'C19']:
     NOT_APPLICABLE.setdefault(_p, NOT_BUILT)
